@@ -555,3 +555,41 @@ def rule_closure(rep, m, fn, rule='R-CLOSURE'):
         rep.ob(rule, q, True, '%d per-iteration functions, all consumed within their iteration' % n_sites, m.rel, fn.lineno,
                what='functions created per iteration bind the iteration value (default argument), not the variable')
     return n_sites, bad
+
+
+_WIDE_DTYPES = {'float', 'numpy.float64', 'np.float64', 'numpy.double', 'np.double', "'float64'", "'float'", "'d'", 'numpy.float_', 'np.float_', 'numpy.longdouble', 'np.longdouble',
+                'int', 'numpy.int64', 'np.int64', 'numpy.intp', 'np.intp', "'int64'", "'int'", 'numpy.int_', 'np.int_', 'bool', 'numpy.bool_', 'np.bool_', "'bool'", 'object', 'complex',
+                'numpy.complex128', 'np.complex128'}
+_MAKERS = {'zeros', 'empty', 'ones', 'full', 'array', 'asarray', 'arange', 'zeros_like', 'empty_like', 'ones_like', 'full_like', 'astype', 'sum', 'cumsum', 'add', 'linspace', 'indices', 'fromfunction', 'asanyarray'}
+
+
+def rule_dtype(rep, m, fn, what, rule='R-DTYPE'):
+    """arrays that receive counts, totals or spectra are created in a wide, fixed type (numpy's default float64 / int64): a `dtype`
+    that is narrower (uint8, int16, float32, numpy.min_scalar_type(..)) wraps or truncates for large samples, and one borrowed from
+    an argument (`dtype=phi.dtype`) truncates whenever the caller's array is integer-valued.  One obligation per function; every
+    explicit dtype in an array constructor / astype / reduction is listed."""
+    q = getattr(fn, '_qualname', fn.name)
+    bad, seen = [], 0
+    for c in own_nodes(fn):
+        if not isinstance(c, ast.Call):
+            continue
+        name = dotted(c.func) or (c.func.attr if isinstance(c.func, ast.Attribute) else '')
+        last = name.split('.')[-1]
+        if last not in _MAKERS:
+            continue
+        dts = [k.value for k in c.keywords if k.arg == 'dtype']
+        if last == 'astype' and c.args:
+            dts.append(c.args[0])
+        for d in dts:
+            seen += 1
+            t = ast.unparse(d)
+            if t in _WIDE_DTYPES or t == 'None':
+                continue
+            if isinstance(d, ast.Name) and d.id == 'dtype':      # a dtype parameter handed through (Spectrum.__new__)
+                continue
+            bad.append((c.lineno, '%s(..., dtype=%s)' % (name or last, t)))
+    rep.ob(rule, '%s:%s' % (m.rel, q), not bad,
+           ('%d explicit dtype(s), all wide and fixed' % seen) if not bad else
+           '; '.join('line %d: `%s` is narrower than float64/int64 or depends on an argument: values wrap or are truncated' % b for b in bad[:3]),
+           m.rel, fn.lineno, what=what)
+    return not bad
